@@ -400,6 +400,20 @@ impl Workload {
             }
         }
         if require_complete && !self.complete() {
+            // C01: a stream whose sender saw everything (data and FIN) acknowledged, yet whose reader never got it all:
+            // the bytes reached the peer's transport and were lost between there and the application
+            for node in 0..2 {
+                let peer = 1 - node;
+                for (k, s) in &self.sides[node].send {
+                    if !(s.finished && s.fin_acked) || s.reset || s.stopped.is_some() {
+                        continue;
+                    }
+                    let (got, fin, rst) = self.sides[peer].recv.get(k).map_or((0, false, None), |r| (r.bytes, r.fin, r.reset));
+                    if rst.is_none() && (got < s.written || !fin) {
+                        sim.fail("stream-data-acked-but-not-delivered", format!("stream {k} of node {node}: {} bytes written, finished and fully acknowledged, but the peer application read {got} bytes (fin {fin})", s.written));
+                    }
+                }
+            }
             let mut detail = String::new();
             for node in 0..2 {
                 let s = &self.sides[node];
